@@ -18,7 +18,28 @@
 #include "core/tokens.h"
 #include "core/Operator.h"
 
+#define MAX_EXPRESSION_DEPTH 256
+
 int EvalExpression::run(AsmContext *asm_context, Var &answer, bool is_paren)
+{
+  // Every open parenthesis recurses, so limit the nesting.
+  if (asm_context->expression_depth >= MAX_EXPRESSION_DEPTH)
+  {
+    print_error(asm_context, "Expression nested too deep");
+    return -1;
+  }
+
+  asm_context->expression_depth++;
+  int ret = run_nested(asm_context, answer, is_paren);
+  asm_context->expression_depth--;
+
+  return ret;
+}
+
+int EvalExpression::run_nested(
+  AsmContext *asm_context,
+  Var &answer,
+  bool is_paren)
 {
   char token[TOKENLEN];
   int token_type;
